@@ -66,7 +66,7 @@ fn(H2 + "._send_data", params={"stream_id": "int"}, task="send",
        # leave a registered buffer that is sealed and empty -- it has ended the stream (C05: also
        # the body-less 500 of a failed application is terminated promptly, whatever the windows)
        ("C09.end.when-complete", "yielded() or not in_map(self.stream_buffers, stream_id) "
-        "or not (map_val(self.stream_buffers, stream_id)._complete and len(map_val(self.stream_buffers, stream_id).buffer) == 0)", "C09,C05,C02"),
+        "or not (map_val(self.stream_buffers, stream_id)._complete and len(map_val(self.stream_buffers, stream_id).buffer) == 0)", "C09,C05,C02,C04,C08"),
        # what goes out as DATA is exactly what was taken from the head of the stream's buffer
        ("C09.data-is-popped", "trace_all('h2', 'x', implies(x[0] == 'send_data', x[2] == call_result('StreamBuffer.pop')))", "C09,C02"),
        # exactly one END_STREAM: it is the last thing sent for the stream, and the send buffer is
@@ -111,7 +111,10 @@ fn(H2 + ".handle", params={"event": _ev.IO_EVENTS}, task="reader",
    ],
    props=("C04",))
 
-fn(H2 + ".stream_send", params={"event": _ev.STREAM_EVENTS}, task="app", model_opts={"call_requires": GOAWAY_LAST},
+fn(H2 + ".stream_send", params={"event": _ev.STREAM_EVENTS}, task="app", model_opts={"call_requires": GOAWAY_LAST,
+               # an exception out of stream_send is raised into the application (C03 "messages an application
+               # sends after closure are accepted silently instead of raising") as well as a C04 matter
+               "exception_props": ("C04", "C03")},
    requires=[("stream_send.pre.sid", "event.stream_id > 0")],
    ensures=[
        # C05 ("HTTP/2: the stream is reset"): when a stream layer reports that it is finished the
@@ -176,7 +179,13 @@ fn(H2 + "._handle_events", params={"events": "obj pyvc:H2Events"}, task="reader"
    ]}},
    props=("C04",))
 
+# C09 / C02 "each ... stream's data is delivered completely ... followed by exactly one END_STREAM":
+# a stream may answer from inside handle(Request) (404 for an unknown server name, 400 for a bad
+# WebSocket handshake), so its send side -- buffer and priority-tree node -- is registered before
+# the request is handed to it (stream_send drops what it finds no buffer for)
+SEND_SIDE_READY = [("C09.stream.send-side-ready", "in_map(self.stream_buffers, request.stream_id) and sel(self.priority.has, request.stream_id)", "C09,C02,C04")]
 fn(H2 + "._create_stream", params={"request": "obj h2.events:RequestReceived"}, task="reader",
+   model_opts={"call_requires": {"HTTPStream.handle": SEND_SIDE_READY, "WSStream.handle": SEND_SIDE_READY}},
    loops={0: {"locals": {"method": "str", "raw_path": "bstr"},
               # the regular headers (after the pseudo-headers) do not change what was taken from :method / :path
               "invariant": [("C01.h2.scan", "method == old(method) and raw_path == old(raw_path)", "C01")]}},
